@@ -69,6 +69,27 @@ Theorem C14_host_without_slash : forall s a, parse_authority s = Some a -> ~ In 
 Proof. exact parse_authority_host_no_slash. Qed.
 Print Assumptions C14_host_without_slash.
 
+(* "every other request is answered 403": a single authority that matches no configured entry is refused *)
+Theorem C14_no_match_403 : forall sel al q a, valid_sel sel -> authority_of q = Some a ->
+  (forall e, In e al -> ~ (host_matches (a_host e) (a_host a) /\ port_matches (a_port e) (a_port a))) ->
+  decide_with sel (Some al) q = Reject403.
+Proof. exact decide_no_match_403. Qed.
+Print Assumptions C14_no_match_403.
+
+(* with the filter on, the three answers partition the requests *)
+Theorem C14_trichotomy : forall sel al q, valid_sel sel ->
+  (decide_with sel (Some al) q = Reject400 /\ authority_of q = None)
+  \/ (decide_with sel (Some al) q = Reject403 /\ exists a, authority_of q = Some a)
+  \/ (decide_with sel (Some al) q = Forward /\ exists a e, authority_of q = Some a /\ In e al /\
+       host_matches (a_host e) (a_host a) /\ port_matches (a_port e) (a_port a)).
+Proof. exact decide_trichotomy. Qed.
+Print Assumptions C14_trichotomy.
+
+(* filter switched off (HostFilterLayer::disable): exactly the requests with a single authority are passed on *)
+Theorem C14_disabled_forwards : forall sel q, decide_with sel None q = Forward <-> authority_of q <> None.
+Proof. exact decide_disabled. Qed.
+Print Assumptions C14_disabled_forwards.
+
 (* ---------------------------------------------------------------- non-vacuity witnesses *)
 Definition rq (host : bytes) (target_authority : bytes) : request := {| q_hosts := [host]; q_uri_auth := target_authority |}.
 
@@ -100,3 +121,10 @@ Proof.
   split; [vm_compute; reflexivity|]. split; [vm_compute; reflexivity|]. split; [left; reflexivity|].
   split; [apply host_matches_run; vm_compute; discriminate|]. split; [right; reflexivity | vm_compute; reflexivity].
 Qed.
+
+(* the 403 clause is not vacuous: an empty allow-list, and a host that matches no entry *)
+Example C14_no_match_nonvacuous :
+  decide (Some []) (rq b#"parity.io" []) = Reject403
+  /\ decide (parse_all [b#"*.web3.site:*"]) (rq b#"web3.site" []) = Reject403
+  /\ decide None (rq b#"anything:1" []) = Forward /\ decide None (rq b#"u:pw@h" []) = Reject400.
+Proof. vm_compute. repeat split; reflexivity. Qed.
